@@ -39,6 +39,20 @@ type T1 { x_: Int }
 type Q { _e(f: _Filter): _Entity u: _U s: _Scope t1: T1 n: _Node }
 schema { query: Q }
 """
+# descriptions everywhere (DC15: their text is not compared, but an SDL carrying them -- empty ones included -- must build)
+DESC_SDL = r'''
+"a scalar" scalar Stamp
+"" enum Mood { "" HAPPY "sad \"quoted\"" SAD }
+"""
+block
+  description
+""" interface Being { "" id: ID "é☃" mood(detail: Boolean = false): Mood }
+"" type Person implements Being { id: ID mood("" detail: Boolean = false): Mood "" at: Stamp }
+"""""" union Anyone = Person
+"input" input Filter { "" mood: Mood = HAPPY "n" n: Int }
+"" directive @note("" text: String = "") on FIELD_DEFINITION
+type Query { "" people("" f: Filter): [Person] anyone: Anyone @note }
+'''
 DEPR_SDL = r"""
 enum E { A B @deprecated C @deprecated(reason: "no C") D @deprecated(reason: "obsolète\n\"utiliser\" A ☃ \\o/") F @deprecated(reason: "") G @deprecated(reason: null) }
 interface I { x: Int old: Int @deprecated }
@@ -92,7 +106,31 @@ EXTENSION_LAYOUTS = [
 def seed_models():
     w, _ = seeds.w_schema("quick")
     return [("K", seeds.K), ("W", w), ("mini", S.parse_sdl(MINI_SDL)), ("renamed", S.parse_sdl(RENAMED_SDL)),
-            ("deprecations", S.parse_sdl(DEPR_SDL)), ("names", S.parse_sdl(NAMES_SDL))]
+            ("deprecations", S.parse_sdl(DEPR_SDL)), ("names", S.parse_sdl(NAMES_SDL)),
+            ("descriptions", with_descriptions(S.parse_sdl(DESC_SDL)))]
+
+
+_DESCS = ["", "x", "é☃ \"q\" \\", "two\nlines", ""]
+
+
+def with_descriptions(schema):
+    """every type, field, argument, input field, enum value and directive gets a description (every other one the empty string)"""
+    from dataclasses import replace as _r
+    n = [0]
+
+    def nxt():
+        n[0] += 1
+        return _DESCS[n[0] % len(_DESCS)]
+
+    def args(aa):
+        return tuple(_r(a, desc=nxt()) for a in aa)
+
+    types = []
+    for t in schema.types:
+        fields = tuple(_r(f, desc=nxt(), args=args(f.args)) if hasattr(f, "args") else _r(f, desc=nxt()) for f in t.fields)
+        types.append(_r(t, desc=nxt(), fields=fields, values=tuple(_r(v, desc=nxt()) for v in t.values)))
+    dirs = tuple(_r(d, desc=nxt(), args=args(d.args)) for d in schema.directives)
+    return _r(schema, types=tuple(types), directives=dirs)
 
 
 WAYS = ["string", "file", "files", "directory"]
